@@ -43,7 +43,7 @@ CFG = {
                   "reads every producible sequence back as exactly its parameter list (sgr_bytes_parse, composing csi_roundtrip), NewStyledString's own "
                   "Cut/Split/Atoi does too (sgr_bytes_split), hence ParseStyledString(EncodeCells cs) = cs and NewStyledString(Encode cs) = cs over "
                   "List Nat (roundtrip_cells_bytes, roundtrip_ss_bytes, roundtrip_cross_bytes, producers_consumers_agree_bytes).",
-    "level_note": "Proved for all inputs on the model (65 theorems, axioms propext/Classical.choice/Quot.sound only). Fixed in /repo: F48, F35 (round 1), "
+    "level_note": "Proved for all inputs on the model (70 theorems, axioms propext/Classical.choice/Quot.sound only). Fixed in /repo: F48, F35 (round 1), "
                   "F118 (NewStyledString reads the legacy semicolon colour forms; witness of the old behaviour kept in Witness/F118), F119 (NewStyledString "
                   "reads OSC 8 instead of turning it into cells), F121 (the encoders close a hyperlink still open at the end; ends_link_closed). Validated by correspondence only: that the byte-level model is the code (encb: exact "
                   "producer strings; decb: both string parsers on exact strings incl. junk parameter texts, with the uniseg cluster table), grapheme "
